@@ -72,8 +72,22 @@ NonDecreasing(s) == \A i \in 1..(Len(s) - 1) : s[i] <= s[i + 1]
 
 \* C01 (deterministic clause) on the order-projection of lb3,lb2,lb1,est,ub1,ub2,ub3;
 \* C03: a non-empty sketch never reports estimate zero; C18: exact image size
+\* C01 (advertised spread): in register mode the one-sigma bounds are estimate / (1 +- e) with e the
+\* relative standard error of the estimator in use: sqrt(ln 2)/sqrt(k) for the HIP estimator of an
+\* in-order sketch, sqrt(3 ln 2 - 1)/sqrt(k) for the composite estimator of an out-of-order one
+\* (10^-6 units; the empirical one-sigma quantiles used for lg_k <= 12 lie within 2.1% of these)
+Rse6(lgk, ooo) ==
+  LET t == IF lgk % 2 = 0 THEN (IF ooo THEN 1038960 ELSE 832555)
+           ELSE (IF ooo THEN 734656 ELSE 588705)              \* divided by sqrt 2
+  IN t \div Pow2(lgk \div 2)
+RelOK(st, rel) ==
+  (st.mode = "arr" /\ rel[1] >= 0) =>
+    \A i \in 1..2 : LET e == Rse6(st.lgk, st.ooo) IN
+      /\ rel[i] * 100 >= 96 * e
+      /\ rel[i] * 100 <= 104 * e
+
 ObsOK(st, o) ==
-  /\ On("C01") => NonDecreasing(o.b)
+  /\ On("C01") => (NonDecreasing(o.b) /\ RelOK(st, o.rel))
   /\ On("C02") => o.emp = IsEmpty(st)
   /\ On("C03") => (~IsEmpty(st) => o.pos)
   /\ On("C18") => o.len = SerLen(st)
